@@ -36,6 +36,11 @@ func decodeAs(orig util.Message, b []byte) (util.Message, string, error) {
 		}
 		return i, "DecodeInstr", nil
 	}
+	if a, ok := orig.(*rwAdapter); ok {
+		fresh := &rwAdapter{v: reflect.New(reflect.TypeOf(a.v).Elem()).Interface().(readWriter)}
+		err := fresh.UnmarshalBinary(b)
+		return fresh, "Write", err
+	}
 	t := reflect.TypeOf(orig)
 	if t.Kind() == reflect.Ptr {
 		fresh := reflect.New(t.Elem()).Interface().(util.Message)
@@ -70,6 +75,13 @@ func decodeAs(orig util.Message, b []byte) (util.Message, string, error) {
 		return fresh, "self", err
 	}
 	return nil, "none", nil
+}
+
+func typeName(m util.Message) string {
+	if a, ok := m.(*rwAdapter); ok {
+		return reflect.TypeOf(a.v).String()
+	}
+	return reflect.TypeOf(m).String()
 }
 
 func isTopLevel(m util.Message) bool {
@@ -139,8 +151,8 @@ func roundtripCmd(args []string) error {
 				}
 				r["dec"] = projectMsg(dec)
 				r["declen"] = int(dec.Len())
-				r["dectype"] = reflect.TypeOf(dec).String()
-				r["origtype"] = reflect.TypeOf(m).String()
+				r["dectype"] = typeName(dec)
+				r["origtype"] = typeName(m)
 				b2, _ := dec.MarshalBinary()
 				r["reenc"] = byteList(b2)
 			})
